@@ -223,3 +223,76 @@ def _locate(t):
         r = p.value
         return z3.And(*[z3.Or(*[z3.And(V.Z(r.flat()[i]) == j, dist(i, j) <= tol, *[dist(i, j) <= dist(i, k) for k in range(D)]) for j in range(D)]) for i in range(N)])
     t.prove_paths("result_is_nearest_design_within_tolerance", paths, goal)
+
+
+class DecAcq(RowwiseAcq):
+    """Decoupled acquisition by contract: value of row j for objective e is the symbol A[e][j]."""
+
+    def __init__(self, CH, n, d, A, m):
+        RowwiseAcq.__init__(self, CH, n, d, None)
+        self.A2 = A
+        self.fields = {"out_dim": m, "evaluation_index": None}
+
+    def value(self, j):
+        e = self.fields["evaluation_index"]
+        return self.A2[e][j]
+
+
+def _opt_decoupled(n, m, q, d=2):
+    @task("C07", "optimize_decoupled_acqf_discrete[choices=%d,objectives=%d,q=%d]" % (n, m, q))
+    def _t(t):
+        t.mode = "n=%d candidates, m=%d objectives, batch q=%d; acquisition table symbolic" % (n, m, q)
+        ch = t.inp("choices", InArr("ch", (n, d)))
+        CH = t.inputs["choices"].snapshot
+        A = [[z3.Real("A_%d_%d" % (e, j)) for j in range(n)] for e in range(m)]
+        acq = DecAcq(CH, n, d, A, m)
+        paths = t.run(AQ, "optimize_decoupled_acqf_discrete", [acq, q, ch])
+        t.must_fail()
+        t.no_raise(paths)
+        qq = min(q, n)
+        allpairs = [(e, j) for e in range(m) for j in range(n)]
+
+        def goal(p):
+            if p.kind != "return" or not isinstance(p.value, tuple) or len(p.value) != 3:
+                return False
+            rows, vals, eidx = p.value
+            if rows.shape != (qq, d) or vals.shape != (qq,) or eidx.shape != (qq,):
+                return False
+            cs = []
+            # every returned (row, objective, value) is a cell of the table
+            cell = []
+            for k in range(qq):
+                alts = [z3.And(V.Z(eidx.flat()[k]) == e, V.R(vals.flat()[k]) == A[e][j],
+                               *[V.Z(V.eq(rows.a[k, c], CH.a[j, c])) for c in range(d)]) for (e, j) in allpairs]
+                cs.append(z3.Or(*alts))
+            # sorted non-increasing
+            cs += [V.R(vals.flat()[k]) >= V.R(vals.flat()[k + 1]) for k in range(qq - 1)]
+            # top-q: no cell of the table that was not returned is larger than the smallest returned value,
+            # stated through counting: every returned value is >= the (qq)-th largest value of the table, i.e.
+            # at most qq-1 cells are strictly larger than the smallest returned value
+            smallest = V.R(vals.flat()[qq - 1])
+            larger = sum((z3.If(A[e][j] > smallest, 1, 0) for (e, j) in allpairs), z3.IntVal(0))
+            cs.append(larger <= qq - 1)
+            return z3.And(*cs)
+        t.prove_each_path("returned_pairs_are_the_q_largest_cells_of_the_table_sorted_non_increasing", paths, goal, chunk=8)
+
+        def distinct_pairs(p):
+            rows, vals, eidx = p.value
+            cs = []
+            for a in range(qq):
+                for b in range(a + 1, qq):
+                    same_row = z3.And(*[V.Z(V.eq(rows.a[a, c], rows.a[b, c])) for c in range(d)])
+                    cs.append(z3.Not(z3.And(same_row, V.Z(eidx.flat()[a]) == V.Z(eidx.flat()[b]))))
+            return z3.And(*cs) if cs else True
+        # distinct candidate rows are a precondition (design points are distinct)
+        distinct_rows = z3.And(*[z3.Or(*[V.R(CH.a[a, c]) != V.R(CH.a[b, c]) for c in range(d)]) for a in range(n) for b in range(a + 1, n)]) if n > 1 else z3.BoolVal(True)
+        t.prove_each_path("returned_design_objective_pairs_are_distinct", paths, lambda p: z3.Implies(distinct_rows, distinct_pairs(p)), chunk=8)
+        t.prove_paths("evaluation_index_of_the_acquisition_is_restored", paths,
+                      lambda p: z3.BoolVal((p.st.roots.get("acq_sets") or [("evaluation_index", 0)])[-1] == ("evaluation_index", None)))
+        t.implicit()
+    return _t
+
+
+_opt_decoupled(2, 2, 1)
+_opt_decoupled(2, 3, 2)
+_opt_decoupled(3, 2, 2)
